@@ -1,15 +1,22 @@
 ------------------------------- MODULE Ticket -------------------------------
 (* C44 - session resumption cannot be forged or used to bypass policy.               *)
 (*                                                                                   *)
-(* A server lives through epochs e = [key, tickets, cache, max, suites, auth]:       *)
+(* A server lives through epochs e = [key, tickets, cache, max, suites, auth, rule]: *)
 (*   key      number of the session-ticket key in use                                 *)
 (*   tickets  RFC 5077 tickets enabled                                                *)
 (*   cache    0 = session-id cache disabled, n = cache generation n (a new generation *)
 (*            is an empty cache; going back to n finds its old entries again)         *)
 (*   max      Config.MaxVersion (0 = default), suites = Config.CipherSuites (server   *)
-(*            preference), auth in {"none","request","require"} client-certificate    *)
-(*            policy                                                                  *)
-(* One client makes connections c = [kind, max, suites, cert, noticket]; after a full *)
+(*            preference), auth in {"none","request","require"} = Config.ClientAuth,  *)
+(*            the GLOBAL client-certificate policy                                    *)
+(*   rule     Config.ServerRule: the per-connection bfe_tls.Rule for SNI rule.sni     *)
+(*            ([on, sni, grade, np, clientauth, chacha], as in Negotiate.tla).  What   *)
+(*            governs one connection is the EFFECTIVE policy: rule.clientauth raises   *)
+(*            the client-certificate policy to "require" for that connection only,     *)
+(*            rule.grade narrows its versions, rule.chacha enables suite CH for it.    *)
+(*            A rule reload is an epoch change; a connection to the other SNI / VIP    *)
+(*            (same ticket key, same cache) is a connection with c.sni # rule.sni.     *)
+(* One client makes connections c = [kind, max, suites, cert, noticket, sni]; after a *)
 (* handshake it keeps what the server handed out (saved):                             *)
 (*   [kind "ticket"|"sid", key (issuing ticket key | cache generation), vers, suite,  *)
 (*    cert (session carries a client certificate), from (step of issue)]              *)
@@ -37,8 +44,13 @@ Eff(saved, t) == IF t \in TampersFor(saved.kind) THEN t ELSE "none"
 
 \* the hello / configuration of this connection in terms of Negotiate.tla
 NegCl(c) == [kind |-> c.kind, min |-> 10, max |-> c.max, suites |-> c.suites, scsv |-> FALSE, ecc |-> "ok",
-             alpn |-> <<>>, sni |-> "a"]
-NegSv(e) == [min |-> 0, max |-> e.max, suites |-> e.suites, prefer |-> TRUE, np |-> <<>>, rule |-> NoRule, cert |-> "rsa"]
+             alpn |-> <<>>, sni |-> c.sni]
+NegSv(e) == [min |-> 0, max |-> e.max, suites |-> e.suites, prefer |-> TRUE, np |-> <<>>, rule |-> e.rule, cert |-> "rsa"]
+\* the rule that applies to this connection / the client-certificate policy in force on it
+RuleFor(c, e) == e.rule.on /\ e.rule.sni = c.sni
+EffAuth(c, e) == IF RuleFor(c, e) /\ e.rule.clientauth THEN "require" ELSE e.auth
+\* suites the server enables for this connection (its list, CH only under a chacha rule)
+EnabledSuites(c, e) == {x \in Range(e.suites) : x = "CH" => (RuleFor(c, e) /\ e.rule.chacha)}
 
 \* ------------------------------------------------------------------ what the client puts in its hello
 \* crypto/tls offers a ticket only if the session's version / suite are still among what it offers
@@ -51,15 +63,15 @@ TicketExt(c, ok) == c.kind = "go" \/ ok = "ticket" \/ (ok # "sid" /\ ~c.noticket
 \* ------------------------------------------------------------------ full handshake (Layer P and M)
 \* (a = Allowed(NegCl(c), NegSv(e)) and m = Mech(NegCl(c), NegSv(e)) are passed in: evaluated once per step)
 FullPa(a, c, e) ==
-  IF a.refuse # "must" /\ e.auth = "require" /\ ~c.cert
+  IF a.refuse # "must" /\ EffAuth(c, e) = "require" /\ ~c.cert
   THEN [refuse |-> "must", why |-> "clientcert", vers |-> 0, suites |-> {}, alpn |-> {}]
   ELSE a
 FullMm(m, c, e) ==
-  IF m.done /\ e.auth = "require" /\ ~c.cert THEN Refuse("bad_certificate", "server") ELSE m
+  IF m.done /\ EffAuth(c, e) = "require" /\ ~c.cert THEN Refuse("bad_certificate", "server") ELSE m
 FullP(c, e) == FullPa(Allowed(NegCl(c), NegSv(e)), c, e)
 FullM(c, e) == FullMm(Mech(NegCl(c), NegSv(e)), c, e)
 \* the full handshake leaves a client certificate with the session
-CertGiven(c, e) == e.auth # "none" /\ c.cert
+CertGiven(c, e) == EffAuth(c, e) # "none" /\ c.cert
 
 \* ------------------------------------------------------------------ Layer P: when may an offer be honoured
 WhyNotA(a, c, e, saved, offer, tamper) ==
@@ -71,16 +83,16 @@ WhyNotA(a, c, e, saved, offer, tamper) ==
   ELSE IF saved.kind = "sid" /\ saved.key # e.cache THEN "other-cache"
   ELSE IF a.refuse = "must" \/ a.vers # saved.vers THEN "version"
   ELSE IF saved.suite \notin Range(c.suites) THEN "suite-not-offered"
-  ELSE IF saved.suite \notin Range(e.suites) THEN "suite-not-enabled"
-  ELSE IF e.auth = "require" /\ ~saved.cert THEN "clientauth"
+  ELSE IF saved.suite \notin EnabledSuites(c, e) THEN "suite-not-enabled"
+  ELSE IF EffAuth(c, e) = "require" /\ ~saved.cert THEN "clientauth"
   ELSE ""
 WhyNot(c, e, saved, offer, tamper) == WhyNotA(Allowed(NegCl(c), NegSv(e)), c, e, saved, offer, tamper)
 MayResume(c, e, saved, offer, tamper) == WhyNot(c, e, saved, offer, tamper) = ""
 
 \* ------------------------------------------------------------------ Layer M
 \* checkForResumption additionally declines when the session has a client certificate and policy is "none"
-MechDeclines(e, saved) == saved.cert /\ e.auth = "none"
-MechResume(c, e, saved, offer, tamper) == MayResume(c, e, saved, offer, tamper) /\ ~MechDeclines(e, saved)
+MechDeclines(c, e, saved) == saved.cert /\ EffAuth(c, e) = "none"
+MechResume(c, e, saved, offer, tamper) == MayResume(c, e, saved, offer, tamper) /\ ~MechDeclines(c, e, saved)
 
 \* session the client holds after the connection (res = resumed, fm = full-handshake outcome)
 SavedAfterR(res, fm, c, e, saved, offer, tamper, n) ==
@@ -99,13 +111,13 @@ ConnOut(c, e, saved, offer, tamper, n) ==
       fp == FullPa(a, c, e)
       fm == FullMm(Mech(NegCl(c), NegSv(e)), c, e)
       why == WhyNotA(a, c, e, saved, offer, tamper)
-      res == why = "" /\ ~MechDeclines(e, saved)
+      res == why = "" /\ ~MechDeclines(c, e, saved)
   IN [expP |-> [resume |-> IF why = "" THEN "may" ELSE "no",
                 whynot |-> why,
                 sess |-> saved,
                 sent |-> Sent(c, saved, offer),
                 full |-> fp,
-                needcert |-> e.auth = "require"],
+                needcert |-> EffAuth(c, e) = "require"],
       expM |-> [resume |-> res,
                 done |-> res \/ fm.done,
                 vers |-> IF res THEN saved.vers ELSE fm.vers,
@@ -124,14 +136,15 @@ StepOK(c, e, saved, offer, tamper) ==
                       /\ saved.kind = "sid" => (e.cache # 0 /\ saved.key = e.cache)
   \* keeps version and suite, which both sides still accept
                       /\ o.expM.vers = saved.vers /\ o.expM.suite = saved.suite
-                      /\ saved.suite \in Range(c.suites) /\ saved.suite \in Range(e.suites)
+                      /\ saved.suite \in Range(c.suites) /\ saved.suite \in EnabledSuites(c, e)
                       /\ saved.vers \in MutualVers(NegCl(c), NegSv(e))
                       /\ \A v \in MutualVers(NegCl(c), NegSv(e)) : v <= saved.vers
   \* never skips a client-certificate requirement
-                      /\ (e.auth = "require" => (saved.cert /\ o.expM.peer))
+                      /\ (EffAuth(c, e) = "require" => (saved.cert /\ o.expM.peer))
+                      /\ (RuleFor(c, e) /\ e.rule.clientauth => saved.cert)
   \* declined offers end in the ordinary full handshake
   /\ ~o.expM.resume => /\ (o.expM.done => o.expP.full.refuse # "must")
                        /\ (~o.expM.done => o.expP.full.refuse # "no")
                        /\ (o.expM.done => o.expM.vers = o.expP.full.vers /\ o.expM.suite \in o.expP.full.suites)
-                       /\ (o.expM.done /\ e.auth = "require" => o.expM.peer)
+                       /\ (o.expM.done /\ EffAuth(c, e) = "require" => o.expM.peer)
 =============================================================================
